@@ -115,3 +115,12 @@ META["C10"] = {
     "note": "Goroutine accounting uses runtime.Stack frame matching; waits are bounded (10 s close, 4 s write); for lossy PullID the end-on-remove clause is required only when the subscriber had seen the item and it stays removed (merging may turn remove+re-add into a replace).",
     "technique": "hook-forced cancel/subscribe injection (rapid) + goroutine stress; oracles: close observed, exactly-once per-sender order, goroutine baseline",
 }
+META["C07"] = {
+    "text": ("Stateful property testing with a snapshot registry: rapid drives 5-40 step sequences on Value/Collection (all write options, masks, id interceptors, 0-3 subscriptions) and on eight trait "
+             "models through their public methods (parent, metadata, enter/leave, electric, vending, publication, hail, booking). Every message crossing the boundary - read results, write results, "
+             "event new/old values, seeds - is registered together with a deep copy and re-compared after every later operation; every message handed to a write is overwritten in all fields right "
+             "after the call and the contents re-compared (against the reference model for the core resources); read-only operations (Get, List, opening a Pull and receiving its seed) must leave the "
+             "stored state, read through an independent path, unchanged."),
+    "note": "The harness never writes to a message it obtained from a read; model operations that panic are not judged here (C20); trait models that merely wrap one resource.Value are covered through the core resources.",
+    "technique": "stateful property testing (rapid) with a deep-copy snapshot registry and input scribbling; differential against the reference store for the core resources",
+}
